@@ -273,6 +273,7 @@ inductive Prim where
   | pack (m : Nat)                           -- exactly m arguments ↦ xs   (a tuple, as ONE object)
   | nest (m : Nat)                           -- exactly m arguments ↦ (xs,) (a tuple on one wire)
   | fail                                     -- raises ValueError
+  | ident (m : Nat)                          -- the sub-diagram Id(m) used as a box's function
   deriving DecidableEq, Repr, Inhabited
 
 /-- Fixed-arity Python functions raise `TypeError` on a wrong number of arguments. -/
@@ -294,6 +295,7 @@ def Prim.sem : Prim → List PyVal → Except Err PyVal
   | .pack m, xs => arity m xs (.ok (.tup xs))
   | .nest m, xs => arity m xs (.ok (.tup [.tup xs]))
   | .fail, _ => .error .value
+  | .ident m, xs => (Function.id m).call xs   -- Id(m)(*xs): cartesian.py:199-203, no boxes
 
 /-- A box of declared arity `dom → cod` around a primitive. -/
 def Prim.box (p : Prim) (dom cod : Nat) : CBox := ⟨dom, cod, p.sem⟩
